@@ -397,16 +397,26 @@ func runCheck(pc *PropConfig, tier string, seed int, writeBaseline, verbose bool
 	// a function under contract is gone (renamed / restructured): its obligations cannot be generated. The
 	// property-level scenario replays decide whether the behaviour is still there.
 	var standins []map[string]any
+	var scenarioErrs []string
 	// The witness scenarios are cheap (one go test each) and run in both tiers: they are the bounded stand-ins
 	// for the functions outside the verifier's reach (reflection, goroutines) and the replay for obligations
 	// whose models are not directly executable. They are recorded separately and never counted as discharged.
 	{
 		for _, sc := range pc.Scenarios {
 			rp, ok := replayers[sc]
-			if !ok || len(rp.Inputs) > 0 {
+			if !ok {
+				// a scenario named by the property that does not exist would silently never run
+				out.engineErr = append(out.engineErr, "scenario "+sc+" is not registered")
+				continue
+			}
+			if len(rp.Inputs) > 0 {
 				continue
 			}
 			res := runScenario(pc, sc, rp, replayDir)
+			if !res.reproduced && res.why != "not-reproduced" {
+				// the witness test did not build or did not run: on an unchanged tree that is a broken check
+				scenarioErrs = append(scenarioErrs, "scenario "+sc+" did not run: "+res.why)
+			}
 			standins = append(standins, map[string]any{"scenario": sc, "kind": "bounded stand-in / witness scenario on the real code (never counted as discharged)", "bound": rp.Oracle, "outcome": res.why})
 			if res.reproduced {
 				out.violations = append(out.violations, fmt.Sprintf("VIOLATION property=%s replay=%s scenario=%s", pc.ID, res.file, sc))
@@ -488,6 +498,11 @@ func runCheck(pc *PropConfig, tier string, seed int, writeBaseline, verbose bool
 		}
 	}
 	fmt.Printf("%s: %d/%d obligations discharged, %d functions, %.1fs\n", pc.ID, discharged, obligations, len(funcsUnder), wall)
+	if len(out.violations) == 0 {
+		// a scenario that cannot run is an engine error unless the tree is already reported as violating
+		// (a change of signature breaks both the contract and the witness test that calls the function)
+		out.engineErr = append(out.engineErr, scenarioErrs...)
+	}
 	if len(out.engineErr) > 0 {
 		for _, e := range out.engineErr {
 			fmt.Println("ENGINE-ERROR", e)
